@@ -55,6 +55,7 @@ type formatFMP4Track struct {
 	startInitialized bool
 	startDTS         time.Duration
 	startNTP         time.Time
+	waitRandomAccess bool
 }
 
 func (t *formatFMP4Track) initialize() {
@@ -108,7 +109,17 @@ func (t *formatFMP4Track) write(sample *formatFMP4Sample) error {
 		t.f.nextSegmentNumber++
 	} else if (dts - t.f.currentSegment.startDTS) < 0 { // BaseTime is negative, this is not supported by fMP4
 		t.f.ri.Log(logger.Warn, "sample of track %d received too late, discarding", t.initTrack.ID)
+		// the samples that depend on a discarded one cannot be decoded:
+		// resume from the next random access sample.
+		t.waitRandomAccess = true
 		return nil
+	}
+
+	if t.waitRandomAccess {
+		if sample.IsNonSyncSample {
+			return nil
+		}
+		t.waitRandomAccess = false
 	}
 
 	err := t.f.currentSegment.write(t, sample, dts)
